@@ -10,7 +10,8 @@
 (***************************************************************************)
 EXTENDS Loader
 
-CONSTANTS MaxOps, EnforceNew, Variant, StartWithMain
+CONSTANTS MaxOps, EnforceNew, Variant, StartWithMain,
+          Overwrite      \* the enforcer's overwrite mode (TRUE: default)
 
 MCNames == {"n", "n2", "o"}
 MCDirs == <<"d1", "d2", "d3">>                 \* d3 is configured but never exists
@@ -28,8 +29,9 @@ MCDefaults ==
 
 Absent == [exists |-> FALSE, mtime |-> 0, content |-> NoRules]
 
-VARIABLES fs, dirs, clock, st, synced, lastop
-vars == <<fs, dirs, clock, st, synced, lastop>>
+VARIABLES fs, dirs, clock, st, synced, lastop,
+          removed    \* history: some definition has been taken out of a file since the start
+vars == <<fs, dirs, clock, st, synced, lastop, removed>>
 
 Mutable == {"main", "d1/a", "d1/b", "d2/a"}
 DirOfFile(f) == CASE f \in {"d1/a", "d1/b", "d1/.hidden", "d1/sub"} -> "d1" [] f = "d2/a" -> "d2" [] OTHER -> "none"
@@ -42,6 +44,9 @@ Content(kind, f, t) ==
     \* content that does not depend on when it is written: re-creating or
     \* rewriting a file with it gives byte-identical data under a newer mtime
     [] kind = "fixed" -> [NoRules EXCEPT !["n"] = RolesB({f \o "@fixed"})]
+    \* an override under the old name that MEANS the deprecated default (the harness
+    \* spells it differently from the default's own text): it governs like any other
+    [] kind = "oldsame" -> [NoRules EXCEPT !["o"] = RolesB({"old"})]
 
 Init ==
   /\ fs = [f \in AllFiles |-> IF f = "main" /\ StartWithMain THEN [exists |-> TRUE, mtime |-> 1, content |-> Content("new", "main", 1)] ELSE Absent]
@@ -50,9 +55,10 @@ Init ==
   /\ st = InitLoader
   /\ synced = FALSE
   /\ lastop = "init"
+  /\ removed = FALSE
 
 \* every configuration of the files at once (no history): C09's quantifier
-ContentKinds == {"absent", "new", "old", "alias", "both"}
+ContentKinds == {"absent", "new", "old", "alias", "both", "oldsame"}
 Order == [f \in AllFiles |-> CASE f = "main" -> 2 [] f = "d1/b" -> 3 [] f = "d1/a" -> 4 [] f = "d2/a" -> 5 [] f = "d1/.hidden" -> 6 [] OTHER -> 7]
 InitAll ==
   /\ \E kind \in [Mutable -> ContentKinds], ign \in [{"d1/.hidden", "d1/sub"} -> {"absent", "new"}] :
@@ -60,36 +66,40 @@ InitAll ==
                LET k == IF f \in Mutable THEN kind[f] ELSE ign[f] IN
                IF k = "absent" THEN Absent ELSE [exists |-> TRUE, mtime |-> Order[f], content |-> Content(k, f, Order[f])]]
   /\ dirs = [d \in {"d1", "d2", "d3"} |-> [exists |-> d # "d3", mtime |-> 7]]
-  /\ clock = 8 /\ st = InitLoader /\ synced = FALSE /\ lastop = "init"
+  /\ clock = 8 /\ st = InitLoader /\ synced = FALSE /\ lastop = "init" /\ removed = FALSE
 
 BumpDir(f, t) == IF DirOfFile(f) = "none" THEN dirs ELSE [dirs EXCEPT ![DirOfFile(f)].mtime = t]
 
+Drops(old, new) == \E n \in Names : old[n].k # "none" /\ new[n].k = "none"
 Write(f, kind) ==
   /\ fs' = [fs EXCEPT ![f] = [exists |-> TRUE, mtime |-> clock + 1, content |-> Content(kind, f, clock + 1)]]
+  /\ removed' = (removed \/ (fs[f].exists /\ Drops(fs[f].content, Content(kind, f, clock + 1))))
   /\ dirs' = IF fs[f].exists THEN dirs ELSE BumpDir(f, clock + 1)         \* creating an entry moves the directory mtime
   /\ clock' = clock + 1 /\ synced' = FALSE /\ lastop' = "write" /\ UNCHANGED st
 Empty(f) ==
   /\ fs[f].exists
   /\ fs' = [fs EXCEPT ![f] = [exists |-> TRUE, mtime |-> clock + 1, content |-> NoRules]]
+  /\ removed' = (removed \/ ~IsEmptyRules(fs[f].content))
   /\ clock' = clock + 1 /\ synced' = FALSE /\ lastop' = "empty" /\ UNCHANGED <<st, dirs>>
 Touch(f) ==
   /\ fs[f].exists
   /\ fs' = [fs EXCEPT ![f].mtime = clock + 1]
-  /\ clock' = clock + 1 /\ synced' = FALSE /\ lastop' = "touch" /\ UNCHANGED <<st, dirs>>
+  /\ clock' = clock + 1 /\ synced' = FALSE /\ lastop' = "touch" /\ UNCHANGED <<st, dirs, removed>>
 Delete(f) ==
   /\ fs[f].exists
   /\ fs' = [fs EXCEPT ![f] = Absent]
   /\ dirs' = BumpDir(f, clock + 1)
+  /\ removed' = (removed \/ ~IsEmptyRules(fs[f].content))
   /\ clock' = clock + 1 /\ synced' = FALSE /\ lastop' = "delete" /\ UNCHANGED st
 \* an entry that is not a policy file (dot-file, sub-directory) appears or changes
 TouchIgnored(f) ==
   /\ fs' = [fs EXCEPT ![f] = [exists |-> TRUE, mtime |-> clock + 1, content |-> Content("new", f, clock + 1)]]
   /\ dirs' = IF fs[f].exists THEN dirs ELSE BumpDir(f, clock + 1)
-  /\ clock' = clock + 1 /\ synced' = FALSE /\ lastop' = "ignored" /\ UNCHANGED st
+  /\ clock' = clock + 1 /\ synced' = FALSE /\ lastop' = "ignored" /\ UNCHANGED <<st, removed>>
 Load(force) ==
-  /\ st' = LoadRules(st, fs, dirs, force, EnforceNew)
+  /\ st' = LoadRulesOv(st, fs, dirs, force, EnforceNew, Overwrite)
   /\ synced' = TRUE /\ lastop' = (IF force THEN "forceload" ELSE "load")
-  /\ UNCHANGED <<fs, dirs, clock>>
+  /\ UNCHANGED <<fs, dirs, clock, removed>>
 
 Next == \/ \E f \in Mutable : \/ \E k \in {"new", "old", "alias", "both", "fixed"} : Write(f, k)
                               \/ Empty(f) \/ Touch(f) \/ Delete(f)
@@ -99,16 +109,27 @@ Spec == Init /\ [][Next]_vars
 SpecAll == InitAll /\ [][Load(FALSE) \/ Load(TRUE)]_vars
 Bounded == clock <= MaxOps
 
-Fresh == LoadRules(InitLoader, fs, dirs, FALSE, EnforceNew)
+\* in the default overwrite mode a fresh enforcer is the yardstick (C10); in merge
+\* mode (overwrite off) removed definitions persist by design, so only the claims
+\* that do not compare with a fresh enforcer apply there
+DefaultMode == Overwrite
+Fresh == LoadRulesOv(InitLoader, fs, dirs, FALSE, EnforceNew, Overwrite)
 
 \* C09: what a newly started enforcer computes is the layering sentence
 FreshIsLayered == Decisions(Fresh.rules) = Decisions(FreshPolicy(fs, dirs, EnforceNew))
 FreshExact == Fresh.rules = FreshPolicy(fs, dirs, EnforceNew)
 \* C10: the long-lived enforcer, right after a load, decides as a fresh one
-LongLivedEqualsFresh == synced => Decisions(st.rules) = Decisions(Fresh.rules)
-LongLivedExact == synced => st.rules = Fresh.rules
+LongLivedEqualsFresh == (synced /\ DefaultMode) => Decisions(st.rules) = Decisions(Fresh.rules)
+LongLivedExact == (synced /\ DefaultMode) => st.rules = Fresh.rules
 \* auxiliary: a cache entry with the file's current mtime holds the file's content
 CacheCoherent == \A f \in AllFiles : (st.cache[f].has /\ fs[f].exists /\ st.cache[f].mtime = fs[f].mtime) => st.cache[f].data = fs[f].content
-\* C12: a load that follows a load (nothing changed in between) changes nothing
-Idempotent == [][(synced /\ synced') => st'.rules = st.rules]_vars
+\* C12: a load that follows a load (nothing changed in between) changes nothing -
+\* in either overwrite mode, and also when the second load is a forced reload
+\* (merge mode keeps definitions that were removed from the files until something
+\* overwrites them - a forced reload does; so there the forced case is claimed only
+\* for histories in which nothing has been removed)
+Idempotent == [][(synced /\ synced' /\ (Overwrite \/ ~removed \/ lastop' = "load")) => st'.rules = st.rules]_vars
+\* in the default overwrite mode a fresh enforcer is the yardstick (C10); in
+\* merge mode (overwrite off) removed definitions persist by design, so only
+\* the claims that do not compare with a fresh enforcer apply
 =============================================================================
